@@ -196,17 +196,32 @@ func (d *composeDecoder) value(data []byte) (v interface{}, strat string, p int,
 			d.maxDepth = d.depth
 		}
 		pp, err := rjson.HandleObjectValues(data, rjson.ObjectValueHandlerFunc(func(k, m []byte) (int, error) {
-			key := string(k)
-			if bytes.IndexByte(k, '\\') >= 0 {
-				kb, kp, err := rjson.UnescapeStringContent(k, nil)
-				if err != nil || kp != len(k) {
-					return 0, fmt.Errorf("UnescapeStringContent failed on a key the traversal accepted: %q (p=%d, err=%v)", k, kp, err)
+			// the field name is read either before the member's value is decoded or after it
+			// (as ValueReader does): it must still be the member's name then
+			keyOf := func() (string, error) {
+				if bytes.IndexByte(k, '\\') >= 0 {
+					kb, kp, err := rjson.UnescapeStringContent(k, nil)
+					if err != nil || kp != len(k) {
+						return "", fmt.Errorf("UnescapeStringContent failed on a key the traversal accepted: %q (p=%d, err=%v)", k, kp, err)
+					}
+					return string(kb), nil
 				}
-				key = string(kb)
+				return string(k), nil
+			}
+			late := d.choose(2, "key-after-value") == 1
+			var key string
+			if !late {
+				var kerr error
+				if key, kerr = keyOf(); kerr != nil {
+					return 0, kerr
+				}
 			}
 			members++
 			if !d.full && d.choose(5, "decline?") == 0 {
 				d.skipped = true
+				if late {
+					key, _ = keyOf()
+				}
 				out[key] = skippedValue{}
 				strats["decline"] = true
 				return 0, nil
@@ -214,6 +229,12 @@ func (d *composeDecoder) value(data []byte) (v interface{}, strat string, p int,
 			v, st, q, err := d.value(m)
 			if err != nil {
 				return q, err
+			}
+			if late {
+				var kerr error
+				if key, kerr = keyOf(); kerr != nil {
+					return 0, kerr
+				}
 			}
 			strats[st] = true
 			out[key] = v
